@@ -194,6 +194,10 @@ def ini_candidates(ini):
         out += [(("base_product", None), DELETE)] + [(("base_product", k), DELETE) for k in ("name", "version", "short")] + [(("base_product", "version"), "1."), (("base_product", "version"), "1a"), (("base_product", "version"), "\u0667.x")]
     out += [(("tree", "arch"), ""), (("tree", "arch"), DELETE), (("tree", "build_timestamp"), "x"), (("tree", "build_timestamp"), "0"), (("tree", "build_timestamp"), DELETE),
             (("tree", "platforms"), DELETE)]
+    # image tables are checked against the platforms the file names: images for the tree arch while [tree] platforms leaves it out
+    if "tree" in ini and "images-%s" % ini["tree"].get("arch") in ini:
+        rest = [p for p in ini["tree"].get("platforms", "").split(",") if p and p != ini["tree"]["arch"]]
+        out.append((("tree", "platforms"), ",".join(rest)))
     # a valid value followed by blank + ';' + anything is ONE value (the format has no inline comments): still outside the domain
     for sec, opt in (("header", "version"), ("header", "type"), ("release", "version"), ("tree", "build_timestamp"), ("release", "is_layered")):
         if sec in ini and opt in ini[sec] and (opt != "version" or sec != "release" or "0" <= ini[sec][opt][:1] <= "9"):      # a free-form version stays free-form
